@@ -180,6 +180,30 @@ class Const(Shape):
         self.value = value
 
 
+class AliasOf(Shape):
+    """The parameter is the very object another expression (over earlier parameters) evaluates to."""
+    kind = "alias"
+
+    def __init__(self, expr):
+        self.expr = expr
+
+
+class OneOf(Shape):
+    """One of the given constant values (symbolic choice)."""
+    kind = "oneof"
+
+    def __init__(self, *values):
+        self.values = list(values)
+
+
+class TaskT(Shape):
+    """An asyncio.Task created earlier: done or not; if done, how it ended."""
+    kind = "task"
+
+    def __init__(self, outcomes=("returned", "Exception", "CancelledError")):
+        self.outcomes = list(outcomes)
+
+
 class Subset(Shape):
     """A python set that is an arbitrary subset of the given constant elements."""
     kind = "subset"
